@@ -365,6 +365,10 @@ func genPrefixCase(r *RNG) LayerCase {
 			return "/" + strings.Repeat("../", r.Intn(3)) + r.Pick(fragments)
 		case 3:
 			return nameNear(r, cpre)
+		case 4:
+			// a name INSIDE the prefix whose first component starts with the text of the prefix (or of its
+			// last component): what the base reports for it begins like the prefix does
+			return "/" + r.Pick([]string{cpre, filepath.Base(cpre)}) + r.Pick([]string{"x", "2", "x/y", ""})
 		default:
 			return randPath(r)
 		}
@@ -457,6 +461,17 @@ func evalPrefixCase(lc LayerCase, b *Batch, res *Result, distinct map[string]str
 	if ierr != nil && len(calls) == 0 && errClass(ierr) != "perm" {
 		viol("C05", fmt.Sprintf("rejected name reported %v, not a permission error", ierr))
 	}
+	// C14, every prefix (relative ones too): "exactly the … result of the same operation on the underlying
+	// filesystem" — the FileInfo of an entry other than the root carries the name the base reports
+	if ierr == nil && len(calls) == 1 && (c.M == "stat" || c.M == "lstat") {
+		// the model's `reportedInfoName`, for every prefix
+		b.Add("prefix.infoname", line("prefix.infoname", pre, calls[0].Args[0], filepath.Base(calls[0].Args[0])), line(ret))
+	}
+	if ierr == nil && len(calls) == 1 && (c.M == "stat" || c.M == "lstat") && calls[0].Args[0] != cpre {
+		if want := filepath.Base(calls[0].Args[0]); ret != want {
+			viol("C14", fmt.Sprintf("FileInfo.Name() = %q for %q through PrefixFS(%q), the underlying filesystem reports %q for %q", ret, c.A[0], pre, want, calls[0].Args[0]))
+		}
+	}
 	// C14: names that stay inside are mapped to prefix + cleaned name (rooted prefixes)
 	if strings.HasPrefix(cpre, "/") && len(calls) == 1 {
 		want := func(nm string) string { return filepath.Join(cpre, filepath.Clean("/"+nm)) }
@@ -520,10 +535,10 @@ func evalPrefixCase(lc LayerCase, b *Batch, res *Result, distinct map[string]str
 			b.Add("prefix.name", line("prefix.name", pre, calls[0].Args[0], calls[0].Args[0]), line(ret))
 		}
 		if ierr == nil && (c.M == "lstat" || c.M == "stat") {
-			b.Add("prefix.name", line("prefix.name", pre, calls[0].Args[0], filepath.Base(calls[0].Args[0])), line(ret))
 			if filepath.Clean("/"+c.A[0]) == "/" && ret != "/" {
 				viol("C14", fmt.Sprintf("root FileInfo.Name() = %q, expected /", ret))
 			}
+
 		}
 	}
 	if c.M == "readlink" && ierr == nil {
